@@ -970,6 +970,36 @@ def check_pycma(rep, rng):
             return
 
 
+def check_pycma_ranking(rep, rng):
+    """pycma wrapper: the update uses the ranking ORDER only -- two identically seeded wrappers told the same ranking once through 1-D
+    ranking values and once through 2-D ones (the two-stage rankers' layout) must stay in lock step (bit-identical next ask)"""
+    try:
+        import cma  # noqa
+    except Exception:  # noqa
+        return
+    from ribs.emitters.opt import PyCMAEvolutionStrategy
+    for dim, dt, bs in ((3, np.float64, 7), (4, np.float32, 6)):
+        seed = rng.randrange(1 << 30)
+        mk = lambda: PyCMAEvolutionStrategy(sigma0=0.5, solution_dim=dim, batch_size=bs, seed=seed, dtype=dt)
+        a, b = mk(), mk()
+        x0 = np.linspace(-1.0, 1.0, dim)
+        a.reset(x0)
+        b.reset(x0)
+        rep.count("pycma_ranking_histories")
+        for g in range(5):
+            sa, sb = np.array(a.ask()), np.array(b.ask())
+            if not np.array_equal(sa, sb):
+                rep.violation("pycma wrapper: 1-D and 2-D ranking values with the same ranking order lead to different samples at generation %d "
+                              "(the update must depend on the order alone)" % g,
+                              {"kind": "property", "dim": dim, "dtype": np.dtype(dt).name, "generation": g, "seed": seed,
+                               "ask_1d": sa.tolist(), "ask_2d": sb.tolist()}, True, {"kind": "pycma-ranking-values"})
+                return
+            f = -np.sum((sa.astype(np.float64) - 0.25) ** 2, axis=1) + np.arange(bs) * 1e-9     # distinct values
+            order = np.argsort(-f)                                                            # not an involution in general
+            a.tell(order, f, bs // 2)
+            b.tell(order, np.stack([np.ones(bs), f], axis=1), bs // 2)
+
+
 class _ObsSink:
     """stands in for the report inside observe_* (which only append to rep.extra['observations'])"""
 
@@ -1162,6 +1192,7 @@ def check(rep, tier, seed, driver):
     t1 = time.time()
     try:
         guarded(lambda: check_pycma(rep, rng), 60)
+        guarded(lambda: check_pycma_ranking(rep, rng), 60)
     except _Hang:
         obs_fail.append({"observation": "pycma", "strategy": "pycma", "did_not_terminate_within_s": 60})
     strategies = ["pycma"] if _has_cma() else []
